@@ -215,12 +215,13 @@ func cmdCheck(args []string) int {
 	t0 := time.Now()
 	vd := verifDir()
 	self, _ := os.Executable()
-	dir := filepath.Join(vd, ".build", "run", id+"-"+*tier)
+	dir := filepath.Join(vd, core.BuildDirName(), "run", id+"-"+*tier)
 	os.RemoveAll(dir)
 	os.MkdirAll(dir, 0o755)
-	os.MkdirAll(filepath.Join(vd, "evidence"), 0o755)
-	os.MkdirAll(filepath.Join(vd, "replays"), 0o755)
-	if old, _ := filepath.Glob(filepath.Join(vd, "replays", id+"-*.json")); len(old) > 0 {
+	od := core.OutDir(vd)
+	os.MkdirAll(filepath.Join(od, "evidence"), 0o755)
+	os.MkdirAll(filepath.Join(od, "replays"), 0o755)
+	if old, _ := filepath.Glob(filepath.Join(od, "replays", id+"-*.json")); len(old) > 0 {
 		for _, f := range old {
 			os.Remove(f)
 		}
@@ -323,7 +324,7 @@ func cmdCheck(args []string) int {
 		if i >= 40 {
 			break
 		}
-		path := filepath.Join(vd, "replays", fmt.Sprintf("%s-%s.json", id, core.HashOf(v.SigKey()+v.Input)))
+		path := filepath.Join(od, "replays", fmt.Sprintf("%s-%s.json", id, core.HashOf(v.SigKey()+v.Input)))
 		core.WriteJSON(path, v)
 		if _, aborted := v.Sig["abort"]; p.Replay != nil && !aborted {
 			cmd := exec.Command(self, "replay", path, "--n", "5", "--quiet")
@@ -364,7 +365,7 @@ func cmdCheck(args []string) int {
 	}
 	ev := core.Evidence{PropertyID: id, Tier: *tier, Seed: seedFromEnv(), Level: p.Level, Coverage: cov,
 		Assumptions: p.Assumptions, WallS: time.Since(t0).Seconds(), Violations: len(confirmed)}
-	if err := core.WriteJSON(filepath.Join(vd, "evidence", id+".json"), ev); err != nil {
+	if err := core.WriteJSON(filepath.Join(od, "evidence", id+".json"), ev); err != nil {
 		fmt.Println("ENGINE-ERROR: evidence:", err)
 		return 2
 	}
